@@ -91,7 +91,7 @@ class H:
     """One harness instance: a `#[kani::proof]` function in a given build profile."""
 
     def __init__(self, name, tier="quick", profiles=("rel",), allow=(), note="", timeout=None,
-                 mem_gb=None, extra_cbmc=(), optional_covers=(), allow_panics=False):
+                 mem_gb=None, extra_cbmc=(), optional_covers=(), allow_panics=False, unwindset=()):
         self.name = name
         self.tier = tier
         self.profiles = tuple(profiles)
@@ -104,6 +104,11 @@ class H:
             optional_covers = [r"operation returned"]
         self.optional_covers = [re.compile(x) for x in (optional_covers or [])]
         self.allow_panics = allow_panics
+        # [(regex on the pretty function name of a loop, bound)]: per-loop unwinding bounds for
+        # loops that are only reachable under an infeasible guard (an enum discriminant the
+        # symbolic execution cannot fold).  Unwinding assertions stay on: if such a loop can
+        # really run longer, the result is INCONCLUSIVE, never a silent truncation.
+        self.unwindset = [(re.compile(a), int(b)) for a, b in unwindset]
 
 
 # --------------------------------------------------------------------------------------------
@@ -153,6 +158,36 @@ def profile_body(profile: str) -> str:
     return "debug-assertions = false\noverflow-checks = false"
 
 
+# Enums whose layout is pinned to an explicit u8 tag IN THE SCRATCH COPY, under cfg(kani) only.
+# Rust niche-encodes e.g. `Payload`'s discriminant inside a field of its largest variant; CBMC
+# reads that through a union and cannot fold it even for a frame that was just constructed, so
+# every `match payload` explores all arms (x4-x10 cost, OOM for Datagram).  `repr(u8)` changes
+# only the memory layout, not the behaviour of safe code (none of the crates under test
+# contains `unsafe`).  A pattern that no longer matches is skipped (slower, not wrong).
+LAYOUT_PINS = {
+    "penguin-mux/src/frame.rs": ["PushPayload", "Payload"],
+    "cow-bytes/src/lib.rs": ["CowBytes"],
+    "penguin-mux/src/lib.rs": ["FlowSlot"],
+    "penguin-mux/src/ws.rs": ["Message"],
+}
+
+
+def pin_enum_layouts(dst: Path):
+    done = []
+    for rel, names in LAYOUT_PINS.items():
+        f = dst / rel
+        if not f.exists():
+            continue
+        txt = f.read_text()
+        for n in names:
+            new = re.sub(r"(\n)((?:pub(?:\(crate\))? )?enum " + n + r"\b)", r"\1#[cfg_attr(kani, repr(u8))]\n\2", txt, count=1)
+            if new != txt:
+                done.append(f"{rel}:{n}")
+                txt = new
+        f.write_text(txt)
+    return done
+
+
 def patches_text(shims: list[str], shim_dir: Path) -> str:
     return "\n".join(f'{s} = {{ path = "{shim_dir / s}" }}' for s in shims)
 
@@ -170,6 +205,7 @@ def copy_repo(dst: Path, profile: str, shims: list[str], shim_dir: Path, mount: 
     if shims:
         man += "\n[patch.crates-io]\n" + patches_text(shims, shim_dir) + "\n"
     (dst / "Cargo.toml").write_text(man)
+    pin_enum_layouts(dst)
     if mount:
         for rel, mods in MOUNTS.items():
             f = dst / rel
@@ -395,6 +431,20 @@ def run_harness(meta, spec: H, profile: str, workdir: Path, tier: str):
     cmd = ["cbmc"] + CBMC_FLAGS[:-1]
     if unwind is not None:
         cmd += ["--unwind", str(unwind)]
+    if spec.unwindset:
+        try:
+            sl = subprocess.run(["goto-instrument", "--show-loops", str(out)], capture_output=True, text=True, timeout=120).stdout
+        except Exception:
+            sl = ""
+        sets = []
+        for m in re.finditer(r"^Loop (\S+):\n\s+file .*? function (.*)$", sl, re.M):
+            for rx, bound in spec.unwindset:
+                if rx.search(m.group(2)):
+                    sets.append(f"{m.group(1)}:{bound}")
+                    break
+        if sets:
+            cmd += ["--unwindset", ",".join(sets)]
+        r["unwindset"] = len(sets)
     cmd += spec.extra_cbmc + ["--slice-formula", str(out), "--verbosity", "8", "--json-ui"]
     jpath = wd / "cbmc.json"
     rc, secs, rss, to = run_proc(cmd, tmo, mem, stdout_path=jpath)
@@ -640,7 +690,7 @@ def run_property(pid: str, tier: str, jobs: int, only: str | None, keep: bool, r
             names = sorted({h.name for h in hl})
             if kind == "ext":
                 ext = sc.root / f"ext-{profile}"
-                make_ext(ext, repo_copy, profile, [s for s in shims if s in ("bytes", "tokio")], VERIF / "shims", VERIF / "harness")
+                make_ext(ext, repo_copy, profile, shims, VERIF / "shims", VERIF / "harness")
                 cwd, pkg_args = ext, []
             else:
                 cwd, pkg_args = repo_copy, ["-p", "penguin-mux", "--no-default-features", "--features", MUX_FEATURES]
